@@ -44,6 +44,7 @@ type T struct {
 type Case struct {
 	NCtx   int    `json:"nctx"`
 	UpFail []bool `json:"up_fail"`
+	UpPos  []int  `json:"up_fail_pos,omitempty"` // where the failing up command sits: 0 last, 1 first, 2 in the middle (a succeeding one follows)
 	Tasks  []T    `json:"tasks"`
 	Mode   string `json:"mode"` // parallel | sequential | scheduler | cli
 }
@@ -80,7 +81,18 @@ func (c Case) taskCommands(i int, trace string) (cmds, before, after []string, c
 func (c Case) hooks(k int, trace string) (up, down, before, after []string) {
 	up = []string{tok(trace, fmt.Sprintf("up:%d", k))}
 	if c.UpFail[k] {
-		up = append(up, "exit 1")
+		pos := 0
+		if k < len(c.UpPos) {
+			pos = c.UpPos[k]
+		}
+		switch pos {
+		case 1:
+			up = append([]string{"exit 1"}, up...)
+		case 2:
+			up = append(up, "exit 1", "true")
+		default:
+			up = append(up, "exit 1")
+		}
 	}
 	return up, []string{tok(trace, fmt.Sprintf("down:%d", k))}, []string{tok(trace, fmt.Sprintf("cb:%d", k))}, []string{tok(trace, fmt.Sprintf("ca:%d", k))}
 }
@@ -333,6 +345,7 @@ func genCase(rt *rapid.T, mode string) Case {
 	c := Case{NCtx: rapid.IntRange(1, 3).Draw(rt, "nctx"), Mode: mode}
 	for k := 0; k < c.NCtx; k++ {
 		c.UpFail = append(c.UpFail, rapid.IntRange(0, 5).Draw(rt, "upfail") == 0)
+		c.UpPos = append(c.UpPos, rapid.IntRange(0, 2).Draw(rt, "upfailpos"))
 	}
 	max := 8
 	if mode == "cli" {
